@@ -468,7 +468,7 @@ theorem conv64_eq (p : Parts) (hN : litN p ≠ 0) :
 
 /-- the moderate-path layer for the call `de.rs` makes on `p` -/
 def ModOk (single : Bool) (p : Parts) : Prop :=
-  match deCall p with
+  match deCall single p with
   | .concise sig e => ModerateOk (fc single) (fmtOf single) sig e false sig e
   | .truncated integer fraction e =>
     ModerateOk (fc single) (fmtOf single)
@@ -479,7 +479,7 @@ def ModOk (single : Bool) (p : Parts) : Prop :=
 
 /-- not the shape of known finding C07-zero-tail: if bhcomp has to drop digits, one of them is non-zero -/
 def NoZeroTail (single : Bool) (p : Parts) : Prop :=
-  match deCall p with
+  match deCall single p with
   | .truncated integer fraction _ =>
     (fc single).maxDigits - 1 < (sigDigits integer (trimTrailingZeros fraction)).length →
       0 < natOfDigits ((sigDigits integer (trimTrailingZeros fraction)).drop ((fc single).maxDigits - 1))
@@ -576,11 +576,11 @@ theorem deFloat64_eq (p : Parts) (wf : WF p) (hlen : (p.int ++ p.frac.getD []).l
     (hz : NoZeroTail false p) (hmod : ModOk false p) :
     deFloatRoundtrip false p = convertRoundtrip p := by
   have h := fcok64
-  have hpres := deCall_presents p wf
+  have hpres := deCall_presents false p wf
   unfold deFloatRoundtrip
   unfold NoZeroTail at hz
   unfold ModOk at hmod
-  cases hcall : deCall p with
+  cases hcall : deCall false p with
   | number r =>
     rw [hcall] at hpres
     obtain ⟨hfr, hexp, hN, hr⟩ := hpres
@@ -651,7 +651,7 @@ theorem deFloat64_eq (p : Parts) (wf : WF p) (hlen : (p.int ++ p.frac.getD []).l
           | none =>
             -- a literal without fraction and exponent is never presented as `concise`
             exfalso
-            have := deCall_presents p wf
+            have := deCall_presents false p wf
             unfold deCall at hcall
             rcases goInt_spec 0 p.int wf.int_digits (by simp [u64Max]) with ⟨g1, _⟩ | ⟨pre, c', post, _, _, _, g3⟩
             · rw [g1] at hcall; simp only [hfr, hexp] at hcall; split at hcall <;> cases hcall
